@@ -600,6 +600,11 @@ class Prov:
         out = set()
         for o in i.ops:
             out |= self.deps(o, depth + 1)
+        if i.op == 'getelementptr':
+            for tok in i.extra.get('idx', []):
+                v = tok.split()[-1]
+                if v.startswith('%'):
+                    out |= self.deps(v, depth + 1)
         return out
 
 
